@@ -21,7 +21,7 @@ demo() { # $1 builddir $2 out
 export TZDIR=$W/testdata/zoneinfo
 build _b0 || { echo "BASE BUILD FAIL"; exit 8; }
 demo _b0 _b0/demo
-timeout 300 _b0/demo $TZDIR >/tmp/mv_$ID$V.base.out 2>&1; RC0=$?
+timeout 300 _b0/demo ${DEMO_ARGS-$TZDIR} >/tmp/mv_$ID$V.base.out 2>&1; RC0=$?
 git apply $D/patch.diff || { echo "PATCH DOES NOT APPLY"; cd /; git -C /repo worktree remove --force $W; exit 7; }
 build _b1 || { echo "MUT BUILD FAIL"; exit 6; }
 # tests always with a plain build
@@ -32,7 +32,7 @@ else
   TESTS=$(ctest --test-dir _b1 -j8 --timeout 900 2>&1 | grep "tests passed")
 fi
 demo _b1 _b1/demo
-timeout 300 _b1/demo $TZDIR >/tmp/mv_$ID$V.mut.out 2>&1; RC1=$?
+timeout 300 _b1/demo ${DEMO_ARGS-$TZDIR} >/tmp/mv_$ID$V.mut.out 2>&1; RC1=$?
 echo "$ID$V san=$SAN base_rc=$RC0 mut_rc=$RC1 tests=[$TESTS]"
 if [ $RC0 -eq 0 ] && [ $RC1 -ne 0 ] && echo "$TESTS" | grep -q "100% tests passed"; then
   mkdir -p /verif/seeded/$ID$V
